@@ -173,7 +173,9 @@ static int64_t Int_C_Int(var self) {
 }
 
 static int Int_Cmp(var self, var obj) {
-  return (int)(Int_C_Int(self) - c_int(obj));
+  int64_t a = Int_C_Int(self);
+  int64_t b = c_int(obj);
+  return a < b ? -1 : a > b ? 1 : 0;
 }
 
 static uint64_t Int_Hash(var self) {
